@@ -31,20 +31,22 @@ CONSTANT VersionSet
 QuickVersions == {3, 6, 9, 10, 11}
 AllVersions == 3..11
 
-\* levels relative to the actor's level 50
-Rel == {"absent", "lt", "eq", "gt"}
-Val(r, str) == CASE r = "absent" -> AbsentV
-                 [] r = "lt" -> IF str THEN StrV(49) ELSE IntV(49)
-                 [] r = "eq" -> IF str THEN StrV(50) ELSE IntV(50)
-                 [] r = "gt" -> IF str THEN StrV(51) ELSE IntV(51)
-MapOf(k, r, str) == IF r = "absent" THEN <<>> ELSE One(k, Val(r, str))
-
 Parts == {"member", "send", "notif"}
-VARIABLES phase, part, v, str, pl, tm
-vars == <<phase, part, v, str, pl, tm>>
+VARIABLES phase, part, v, str, pl, tm, al
+vars == <<phase, part, v, str, pl, tm, al>>
+
+\* levels relative to the actor's level al; al is placed at and just below the two default values (50 and 0) so
+\* that an absent field is distinguishable from every wrong default
+ActorLevels == {50, 49, 0, -1}
+Rel == {"absent", "lt", "eq", "gt"}
+Val(r, ss) == CASE r = "absent" -> AbsentV
+                 [] r = "lt" -> IF ss THEN StrV(al - 1) ELSE IntV(al - 1)
+                 [] r = "eq" -> IF ss THEN StrV(al) ELSE IntV(al)
+                 [] r = "gt" -> IF ss THEN StrV(al + 1) ELSE IntV(al + 1)
+MapOf(k, r, ss) == IF r = "absent" THEN <<>> ELSE One(k, Val(r, ss))
 
 Init == /\ phase = 0 /\ part \in Parts /\ v \in VersionSet /\ str \in BOOLEAN
-        /\ pl = EmptyPL /\ tm = "join"
+        /\ pl = EmptyPL /\ tm = "join" /\ al \in ActorLevels
 
 \* the actor's level 50 comes from a users entry or from users_default; the target's from an entry or the default
 Actor(mode, tr) ==
@@ -53,7 +55,7 @@ Actor(mode, tr) ==
   ELSE [users |-> MapOf(UB.name, tr, str), ud |-> Val("eq", str)]
 
 Next ==
-  /\ phase = 0 /\ phase' = 1 /\ UNCHANGED <<part, v, str>>
+  /\ phase = 0 /\ phase' = 1 /\ UNCHANGED <<part, v, str, al>>
   /\ \/ /\ part = "member"
         /\ \E mode \in {"entry", "default"}, tr \in Rel, b \in Rel, k \in Rel, i \in Rel, m \in {"join", "invite", "leave", "ban", "absent"} :
              LET a == Actor(mode, tr) IN
@@ -102,7 +104,7 @@ CPL(p) == [f \in {g \in ScalarFields : p[g].k # "absent"} |-> CV(p[f])]
           @@ [users |-> CMap(p.users), events |-> CMap(p.events), notifications |-> CMap(p.notifications), userkeysvalid |-> TRUE]
 
 Emit == phase = 1 =>
-  PrintT(<<"CASE", ToJson([ v |-> v, part |-> part, str |-> str, tm |-> tm, pl |-> CPL(pl), spec |-> Specified,
+  PrintT(<<"CASE", ToJson([ v |-> v, part |-> part, str |-> str, tm |-> tm, al |-> al, pl |-> CPL(pl), spec |-> Specified,
      ban |-> HCanBanUser(pl, UA.name, UB.name), kick |-> HCanKickUser(pl, UA.name, UB.name),
      unban |-> HCanUnbanUser(pl, UA.name, UB.name), invite |-> HCanInvite(pl, UA.name),
      msg |-> HCanSendMessage(pl, UA.name, "m.room.message"), topic |-> HCanSendState(pl, UA.name, "m.room.topic"),
